@@ -4,6 +4,7 @@ directory under outs/ are pairwise distinct, and different names give
 disjoint sub-trees.
 -/
 import Martian.PostProcess
+import Martian.PostProcessDefs
 
 namespace Martian.PostProcess
 
@@ -26,10 +27,6 @@ theorem lt_pow_widthAux (fuel n : Nat) (h : n ≤ fuel) : n < 10 ^ widthAux fuel
 
 /-- every index of an array of length `n` has at most `width n` digits -/
 theorem lt_pow_width (n : Nat) : n < 10 ^ width n := lt_pow_widthAux n n (Nat.le_refl n)
-
-def valRev : List Nat → Nat
-  | [] => 0
-  | d :: ds => d + 10 * valRev ds
 
 theorem valRev_digitsRev (w i : Nat) (h : i < 10 ^ w) : valRev (digitsRev w i) = i := by
   induction w generalizing i with
